@@ -243,6 +243,172 @@ def as_completed_plans(chk, rnd):
       chk.violation('as_completed:workers-left-acquired', f'[{name}] {acquired}', ctx)
 
 
+def record_iterate(n, shards, workers, plan, *, retry_threshold=50, call_timeout=20.0, threshold=90.0, deadline=25.0):
+  """Runs WorkerPool.iterate under a fault plan and records the events of Trace_Sched.tla."""
+  import re
+  from ml_metrics._src.chainables import lazy_fns, transform
+  events = []
+  elock = threading.Lock()
+
+  def log(**ev):
+    with elock:
+      events.append(dict(dict(ev='', t='', w='', kind=''), **ev))
+
+  with dist.cluster(workers, call_timeout=call_timeout, heartbeat_threshold=threshold) as c:
+    wid = {addr: f'w{i + 1}' for i, addr in enumerate(c.names)}
+    for (w, i), outcome in plan.items():
+      c.plan(w, i, outcome)
+    cu = c.mods.courier_utils
+    orig = cu.CourierClient.async_iterate
+
+    class StateProxy:
+      def __init__(self, q, t):
+        self.q, self.t = q, t
+
+      def put(self, item, *a, **k):
+        if isinstance(item, transform.AggregateResult):
+          log(ev='State', t=self.t)
+        return self.q.put(item, *a, **k)
+
+    def traced(self, task, *, generator_result_queue):
+      m = re.search(r"shard_index['\"]?[=:,]\s*(\d+)", repr(task.args[0]))
+      t = f't{int(m.group(1)) + 1}' if m else 't?'
+      log(ev='Submit', t=t, w=wid.get(self.address, self.address))
+      return orig(self, task, generator_result_queue=StateProxy(generator_result_queue, t))
+
+    def on_done(address, method, outcome, payload):
+      w = wid.get(address)
+      if w is None or method not in ('init_generator', 'next_batch_from_generator'):
+        return
+      if payload == 'die':
+        log(ev='Die', w=w)
+        return
+      if isinstance(payload, BaseException):
+        log(ev='Done', w=w, kind='deadline' if getattr(payload, 'code', 0) == 4 or isinstance(payload, TimeoutError) else 'error')
+        return
+      if method == 'init_generator':
+        log(ev='Done', w=w, kind='init' if payload is None else ('deadline' if isinstance(payload, TimeoutError) else 'error'))
+        return
+      batch = lazy_fns.maybe_make(payload)
+      for x in batch:
+        if isinstance(x, StopIteration):
+          log(ev='Done', w=w, kind='end')
+        elif isinstance(x, Exception):
+          log(ev='Done', w=w, kind='deadline' if isinstance(x, TimeoutError) else 'error')
+        else:
+          log(ev='Done', w=w, kind='elem')
+
+    fakecourier.BOARD.on_done = on_done
+    cu.CourierClient.async_iterate = traced
+    states_q = queue.SimpleQueue()
+    outs = []
+    try:
+      tasks = (lib_trace(n, i, shards) for i in range(shards))
+
+      def run():
+        for x in c.pool.iterate(tasks, generator_result_queue=states_q, retry_threshold=retry_threshold, total_tasks=shards):
+          outs.append(x)
+        return True
+
+      status, val = dist.run_with_deadline(run, deadline)
+    finally:
+      cu.CourierClient.async_iterate = orig
+      fakecourier.BOARD.on_done = None
+    if status == 'ok':
+      log(ev='End', kind='ok')
+    elif status == 'raised' and isinstance(val, TimeoutError):
+      log(ev='End', kind='too-many-timeouts')
+    elif status == 'raised':
+      log(ev='End', kind='task-failed')
+  return events, status, outs
+
+
+def sched_traces(chk, rnd):
+  """code -> spec: recorded executions of WorkerPool.iterate must be behaviours of Sched.tla."""
+  from harness import tracecheck
+  n, shards, workers = 6, 3, 2
+  plans = [{}, {(1, 2): 'deadline'}, {(1, 3): 'response_lost'}, {(0, 4): 'deadline', (1, 2): 'deadline'}, {(1, 4): 'deadline'}]
+  for _ in range(4 if chk.tier == 'quick' else 40):
+    plans.append({(rnd.choice([0, 1]), rnd.randint(1, 9)): rnd.choice(['deadline', 'response_lost']) for _ in range(rnd.choice([1, 2]))})
+  traces, meta = [], []
+  for plan in plans:
+    ev, status, outs = record_iterate(n, shards, workers, plan)
+    chk.replayed()
+    if status == 'hung':
+      chk.violation('sched-trace:hung', f'plan {plan}: no end within the deadline', dict(kind='sched-trace', plan=str(plan), events=ev))
+      continue
+    traces.append(ev)
+    meta.append(plan)
+  consts = dict(Tasks={'t1', 't2', 't3'}, Workers={'w1', 'w2'}, L=n // shards, Budget=9, Threshold=50, UsableWorker='w0', RecheckDone=False)
+  invs = ['StateExactlyOnce', 'OutputsAtLeastOnce']
+  accepted, rejected, res = tracecheck.validate('dist', 'Trace_Sched', traces, consts, invariants=invs, explain=4)
+  chk.add_tlc(res, 'Trace_Sched')
+  chk.coverage['sched_traces'] = dict(recorded=len(traces), accepted=len(accepted))
+  for i, info in rejected.items():
+    e = info.get('event') or {}
+    chk.violation(f"sched-trace-rejected:{e.get('ev')}:{e.get('kind') or e.get('op')}",
+                  f'plan {meta[i - 1]}: no behaviour of Sched.tla explains event {info.get("line")}: {e}; before it: {info.get("prefix")}',
+                  dict(kind='sched-trace', plan=str(meta[i - 1]), events=traces[i - 1], line=info.get('line')))
+  if traces:
+    # binding demonstration: a trace with one answer removed must be rejected
+    bad = [e for e in traces[0]]
+    k = next((j for j, e in enumerate(bad) if e['ev'] == 'Done' and e['kind'] == 'elem'), None)
+    if k is not None:
+      acc2, _, _ = tracecheck.validate('dist', 'Trace_Sched', [bad[:k] + bad[k + 1:]], consts, explain=0)
+      chk.coverage['sched_corrupted_trace_rejected'] = not acc2
+      if acc2:
+        chk.machinery_failure('Trace_Sched accepted a trace with a removed answer: the binding is vacuous')
+
+
+def answer_races_death(chk):
+  """as_completed: the answer of a call arrives in the instant the loop decides its worker is dead.
+
+  Forced, not raced: the task's evaluation is held behind a gate; when the loop asks whether the task's worker is
+  alive (it only does so after it found the call not done), the gate opens, the call completes, and the
+  worker is reported dead.  The result must be delivered once (or the task retried), never a crash."""
+  from ml_metrics._src.chainables import lazy_fns
+  lib.GATE.clear()
+  with dist.cluster(2, call_timeout=20.0, heartbeat_threshold=90.0) as c:
+    cu = c.mods.courier_utils
+    orig = cu.Task.is_alive
+    fired = {'n': 0}
+
+    def is_alive(self):
+      st = self.state
+      if fired['n'] == 0 and st is not None and not st.done() and 'gated_add100' in repr(self.args):
+        fired['n'] = 1
+        lib.GATE.set()
+        t0 = time.time()
+        while not st.done() and time.time() - t0 < 5:
+          time.sleep(0.001)
+        return False
+      return orig.fget(self)
+
+    cu.Task.is_alive = property(is_alive)
+    got = []
+    try:
+      def run():
+        c.pool.wait_until_alive(deadline_secs=600, minimum_num_workers=2)
+        tasks = iter([lazy_fns.trace(lib.gated_add100)(1), lazy_fns.trace(lib.add100)(2)])
+        for x in c.mods.orchestrate.as_completed(c.pool, tasks):
+          got.append(x)
+        return True
+
+      status, val = dist.run_with_deadline(run, 25)
+    finally:
+      cu.Task.is_alive = orig
+      lib.GATE.set()
+  chk.replayed()
+  ctx = dict(kind='dist', scenario='as_completed: answer arrives while the loop declares the worker dead')
+  chk.coverage['answer_races_death_forced'] = bool(fired['n'])
+  if status == 'hung':
+    chk.violation('answer-races-death:hung', f'results so far {got}', ctx)
+  elif status == 'raised':
+    chk.violation(f'answer-races-death:crash:{type(val).__name__}', f'as_completed ended with {val!r} after delivering {got}', ctx)
+  elif sorted(got) != [101, 102]:
+    chk.violation('answer-races-death:results', f'results {sorted(got)} != [101, 102]', ctx)
+
+
 def lib_trace(n, i, shards):
   from ml_metrics._src.chainables import lazy_fns
   return (lazy_fns.trace(lib.define_pipeline)(n, shard_index=i, num_shards=shards).make()
@@ -302,6 +468,8 @@ def body(chk):
   chk.replayed()
   judge(chk, 'app-error element 3 raises', n, out, {}, expect_error=('RuntimeError', 'ValueError', 'ExceptionGroup'))
   as_completed_plans(chk, rnd)
+  answer_races_death(chk)
+  sched_traces(chk, rnd)
   # one-shot tasks (as_completed, run) are the L = 0 instance of the same retry loop
   consts0 = dict(Tasks={'t1', 't2', 't3'}, Workers={'w1', 'w2'}, L=0, Budget=2, Threshold=2, UsableWorker='w1', RecheckDone=True)
   mc0 = tlc.run('dist', 'Sched', tlc.cfg_text(constants=consts0, invariants=['StateExactlyOnce', 'StateAtMostOnce'],
